@@ -1,4 +1,4 @@
 From Coq Require Import Extraction ExtrOcamlBasic ExtrOcamlString.
 From Oras Require Import Base.Prelude Model.Reference Model.Registry Model.RemoteClient Model.Location.
 Extraction Language OCaml.
-Extraction "xc13.ml" run_history allowed rsc_run rsc_open range_srv put_url_str eff_limit name_unknown.
+Extraction "xc13.ml" run_history allowed rsc_run rsc_open range_srv put_url_str eff_limit name_unknown gen_index mt_index request_url.
